@@ -203,6 +203,121 @@ func c13MqttSpec(r *Repo, fd *ast.FuncDecl, name string) *irSpec {
 	return s
 }
 
+// c13CBWindows: pkg/util/circuitbreaker. Every `NewCountBasedWindow(X)` / `NewTimeBasedWindow(X)` call of
+// the package (outside the constructors themselves) with the state branch it is in, X translated over the
+// policy record; the admission condition of the half-open state in AcquirePermission; the number of
+// `window.Push` call sites (only RecordResult pushes, and only for a result of the current state).
+func c13CBWindows(r *Repo, w *Lean) error {
+	const cbf = "pkg/util/circuitbreaker/circuitbreaker.go"
+	f, err := r.File(cbf)
+	if err != nil {
+		return err
+	}
+	spec := c13Base("cbExpr")
+	spec.LeanTy["CB"] = "Unit"
+	spec.Fields["CB.policy"] = irField{Fmt: "p", Ty: "CBLibPolicy"}
+	spec.Fields["CBLibPolicy.SlidingWindowSize"] = irField{Fmt: "%s.slidingWindowSize", Ty: "Int"}
+	spec.Fields["CBLibPolicy.PermittedNumberOfCallsInHalfOpen"] = irField{Fmt: "%s.permitted", Ty: "Int"}
+	spec.Fields["CBLibPolicy.MinimumNumberOfCalls"] = irField{Fmt: "%s.minCalls", Ty: "Int"}
+	spec.Fields["CB.numberOfCallsInHalfOpen"] = irField{Fmt: "n", Ty: "Int"}
+	var sizes []string
+	pushes := 0
+	admit := ""
+	for _, d := range f.Decls {
+		fd, ok := d.(*ast.FuncDecl)
+		if !ok || fd.Body == nil || fd.Name.Name == "NewCountBasedWindow" || fd.Name.Name == "NewTimeBasedWindow" {
+			continue
+		}
+		recv := ""
+		if fd.Recv != nil && len(fd.Recv.List) == 1 && len(fd.Recv.List[0].Names) == 1 {
+			recv = fd.Recv.List[0].Names[0].Name
+		}
+		t := &irT{r: r, spec: spec}
+		env := &irEnv{vars: map[string]irVar{}}
+		if recv != "" && recvName(fd.Recv.List[0].Type) == "CircuitBreaker" {
+			env = env.with(recv, irVar{Lean: "()", Ty: "CB", Param: true})
+		}
+		// which state branch a node is in: the innermost enclosing `if … state == StateX`
+		var walk func(n ast.Node, branch string) error
+		walk = func(n ast.Node, branch string) error {
+			var err error
+			switch x := n.(type) {
+			case *ast.IfStmt:
+				b := branch
+				c := r.Src(x.Cond)
+				if strings.HasSuffix(c, "== StateHalfOpen") {
+					b = "HalfOpen"
+				} else if strings.HasSuffix(c, "== StateClosed") {
+					b = "Closed"
+				}
+				// the admission test of the half-open state
+				if strings.Contains(r.Src(x.Body), "numberOfCallsInHalfOpen++") && strings.Contains(r.Src(x.Body), "return true") {
+					ct, e := t.expr(x.Cond, env)
+					if e != nil {
+						return e
+					}
+					admit = ct.S
+				}
+				if err = walk(x.Body, b); err != nil {
+					return err
+				}
+				if x.Else != nil {
+					return walk(x.Else, branch)
+				}
+				return nil
+			case *ast.CallExpr:
+				fn := r.Src(x.Fun)
+				if fn == "NewCountBasedWindow" || fn == "NewTimeBasedWindow" {
+					if len(x.Args) != 1 {
+						return fmt.Errorf("%s: unexpected arguments", fn)
+					}
+					a, e := t.expr(x.Args[0], env)
+					if e != nil {
+						return fmt.Errorf("window size %s in %s: %v", r.Src(x.Args[0]), fd.Name.Name, e)
+					}
+					if a.Ty != "Int" {
+						return fmt.Errorf("window size %s has type %s", r.Src(x.Args[0]), a.Ty)
+					}
+					if branch == "" {
+						branch = "Other:" + fd.Name.Name
+					}
+					sizes = append(sizes, fmt.Sprintf("(%s, %s)", Str(branch), a.S))
+				}
+				if strings.HasSuffix(fn, ".window.Push") {
+					pushes++
+				}
+			}
+			ast.Inspect(n, func(c ast.Node) bool {
+				if c == n || c == nil || err != nil {
+					return err == nil
+				}
+				switch c.(type) {
+				case *ast.IfStmt, *ast.CallExpr:
+					err = walk(c, branch)
+					return false
+				}
+				return true
+			})
+			return err
+		}
+		if err := walk(fd.Body, ""); err != nil {
+			return err
+		}
+	}
+	if admit == "" {
+		return fmt.Errorf("circuitbreaker: admission test of the half-open state not found")
+	}
+	w.Line("/-! Translated expressions of pkg/util/circuitbreaker/circuitbreaker.go: the size argument of every")
+	w.Line("`NewCountBasedWindow(…)` / `NewTimeBasedWindow(…)` call (with the state branch it occurs in) over the policy `p`. -/")
+	w.Line("def cbWindowSizesIR (p : CBLibPolicy) : List (String × Int) := [%s]", strings.Join(sizes, ", "))
+	w.Line("/-- the test under which `AcquirePermission` admits a call in half-open state (`n` = `numberOfCallsInHalfOpen`) -/")
+	w.Line("def cbHalfOpenAdmitIR (p : CBLibPolicy) (n : Int) : Bool := %s", admit)
+	w.Line("/-- `….window.Push(` call sites in the package (RecordResult only) -/")
+	w.Line("def cbPushSites : Nat := %d", pushes)
+	w.Line("")
+	return nil
+}
+
 const c13Prelude = `set_option linter.unusedVariables false
 open EgVerif.SpecGuards
 `
@@ -474,6 +589,12 @@ func init() {
 		w.Line("`Validator.Handle`: `if v.signer != nil { … v.signer.Verify(…) … }`; no other `v.signer.Verify` call -/")
 		w.Line("def validatorWiring : Bool := %s", Bool(creates && verifies && r.CountCalls(vh.Body, "v.signer.Verify") == 1))
 		w.Line("")
+
+		// ---- CircuitBreaker windows: the size argument of every window the breaker creates, and the
+		// condition under which a call is admitted in half-open state (translated expressions)
+		if err := c13CBWindows(r, w); err != nil {
+			return err
+		}
 
 		// ---- MQTTProxy
 		const mq = "pkg/object/mqttproxy/broker.go"
